@@ -44,7 +44,7 @@ from .exceptions import XMLSchemaValidationError, \
 
 if TYPE_CHECKING:
     from .xsdbase import XsdValidator  # noqa: F401
-    from .facets import XsdPatternFacets  # noqa: F401
+    from .facets import XsdPatternFacets, XsdPatternsChain  # noqa: F401
     from .identities import XsdIdentity, IdentityCounter  # noqa: F401
 
 logger = logging.getLogger('xmlschema')
@@ -171,7 +171,7 @@ class ValidationContext:
         self.id_list: Optional[list[Any]] = None
         self.elem: Optional[ElementType] = None
         self.attribute: Optional[str] = None
-        self.patterns: Optional['XsdPatternFacets'] = None
+        self.patterns: Optional[Union['XsdPatternFacets', 'XsdPatternsChain']] = None
 
         self.validation_only = self.__class__ is ValidationContext
         self._arguments.validate(self)
